@@ -3,11 +3,11 @@ CONSTANTS
   FixDurs = {1}
   ScanDurs = {0,1,2,3}
   RestDurs = {0,1,2,3}
-  NodeDurs = {0,1,2,3}
+  NodeDurs = {1}
   UseSw = FALSE
   UseFs = TRUE
   AllowRestart = TRUE
-  InitSw = {"GOOD", "UNUSED"}
+  InitSw = {"GOOD"}
 VIEW View
 INVARIANT InvNeverOverdue
 INVARIANT InvFixClock
@@ -24,4 +24,5 @@ PROPERTY RestoreInWindow
 PROPERTY OsScanInWindow
 PROPERTY InstantOnlyAtZero
 PROPERTY OffTicksChangeNothing
+
 CHECK_DEADLOCK TRUE
